@@ -206,6 +206,35 @@ def install(handler, g):
             second = log[len(first):]
             bad = first != ["b1", "b2"] or second != ["b1", "b2"]
             return bad, f"backends applied on the first compilation: {first}; on a re-compilation: {second}"
+        if "dynamo_cache_reset" in ob:
+            # more transformed copies of ONE module class than TorchDynamo's recompile limit: is the
+            # backend still applied to every copy?
+            import torch.fx as fx
+            from unit_scaling.transforms.utils import apply_transform
+
+            class Tiny(nn.Module):
+                def __init__(self):
+                    super().__init__()
+                    self.l = nn.Linear(3, 3)
+
+                def forward(self, x):
+                    return torch.relu(self.l(x))
+
+            calls = []
+
+            def counting_backend(gm, example_inputs):
+                calls.append(1)
+                return gm
+
+            limit = getattr(torch._dynamo.config, "recompile_limit", getattr(torch._dynamo.config, "cache_size_limit", 8))
+            missing = []
+            for i in range(limit + 3):
+                m = apply_transform(Tiny(), counting_backend)
+                before = len(calls)
+                m(torch.randn(2, 3))
+                if len(calls) == before:
+                    missing.append(i)
+            return bool(missing), f"{limit + 3} transformed copies of one class: the backend was NOT applied to copies {missing}" if missing else f"the backend was applied to each of {limit + 3} copies"
         return False, "no concrete replay rule; see the verifier output in the replay file"
 
     def replay_c18(rj):
@@ -294,15 +323,20 @@ def install(handler, g):
             }
             nN, nOut = ("output", "output_1") if cfg.get("names") == "user_variable_called_output" else ("N", "output")
             msgs = []
-            variants = [("same", 1.0, 1.0), ("different", 1.0, 2.0)] if helper == "prune_same_scale_tensors" else [("-", 1.0, 2.0)]
-            for vname, mN, mA in variants:
+            # (name, forward mean|x| of N / of its input, backward mean|g| of N / of its input, rtol)
+            variants = [("same", 1.0, 1.0, 1.0, 1.0, 2**-16), ("different", 1.0, 2.0, 1.0, 2.0, 2**-16), ("backward_within_the_callers_rtol", 1.0, 1.0, 1.0, 1.001, 0.25), ("forward_within_the_callers_rtol", 1.0, 1.001, 1.0, 1.0, 0.25), ("backward_outside_rtol", 1.0, 1.0, 1.0, 1.5, 0.25)] if helper == "prune_same_scale_tensors" else [("-", 1.0, 2.0, 1.0, 2.0, 2**-16)]
+            for vname, mN, mA, gN, gA, rtol_ in variants:
                 g = fx.Graph()
                 x = g.placeholder("x")
                 idx = g.placeholder("idx")
                 prev = g.call_function(earlier_op, (x,))
                 prev.name = "earlier"
                 fa = cfg.get("float_args", 1)
-                nargs = {0: (idx,), 1: (prev, idx), 2: (prev, x)}[fa]
+                side = None
+                if fa == 2:
+                    side = g.call_function(earlier_op, (x,))
+                    side.name = "side"
+                nargs = {0: (idx,), 1: (prev, idx), 2: (prev, side)}[fa]
                 tgt = (sel_fn if cfg.get("selected") else kept_fn) if helper == "prune_selected_nodes" else operator.neg
                 node = g.call_function(tgt, nargs)
                 node.name = nN
@@ -317,19 +351,19 @@ def install(handler, g):
                     n.meta["outputs_float_tensor"] = n.name != "idx" and n.op != "output"
                 node.meta["outputs_float_tensor"] = cfg.get("node_is_float", True)
                 if helper == "prune_same_scale_tensors":
-                    vals = {"x": 7.0, "earlier": mA, nN: mN, "consumer": 13.0}
+                    vals = {"x": 7.0, "earlier": mA, nN: mN, "consumer": 13.0, "side": 3.0}
                     for n in g.nodes:
                         if n.name in vals:
                             m = ts.Metrics.__new__(ts.Metrics)
                             m.fwd = D(vals[n.name], 0, 0, 0, 0, 1)
-                            m.bwd = D(vals[n.name], 0, 0, 0, 0, 1) if cfg.get("bwd", "both") == "both" or (cfg.get("bwd") == "only_node" and n is node) or (cfg.get("bwd") == "only_arg" and n is prev) else None
+                            m.bwd = D({"earlier": gA, nN: gN}.get(n.name, vals[n.name]), 0, 0, 0, 0, 1) if cfg.get("bwd", "both") == "both" or (cfg.get("bwd") == "only_node" and n is node) or (cfg.get("bwd") == "only_arg" and n is prev) else None
                             n.meta["metrics"] = m
                 before = [(n.name, n.op) for n in g.nodes]
                 try:
                     if helper == "prune_non_float_tensors":
                         res = ts.prune_non_float_tensors(g)
                     elif helper == "prune_same_scale_tensors":
-                        res = ts.prune_same_scale_tensors(g, rtol=2**-16)
+                        res = ts.prune_same_scale_tensors(g, rtol=rtol_)
                     else:
                         res = ts.prune_selected_nodes(g, [sel_fn])
                     res.lint()
@@ -344,8 +378,9 @@ def install(handler, g):
                     must = bool(cfg["selected"])
                 else:
                     bN, bA = node.meta["metrics"].bwd, prev.meta["metrics"].bwd
-                    must = fa == 1 and mN == mA and ((bN is None) == (bA is None))
-                want = [n for n in ["x", "idx", "earlier", nN, "consumer", nOut] if (n != nN or not must) and not (n == "idx" and helper == "prune_non_float_tensors")]
+                    close = lambda a_, b_: abs(a_ - b_) <= rtol_ * max(abs(a_), abs(b_))  # noqa: E731
+                    must = fa == 1 and close(mN, mA) and ((bN is None) == (bA is None)) and (bN is None or close(gN, gA))
+                want = [n for n in ["x", "idx", "earlier", "side", nN, "consumer", nOut] if (n != nN or not must) and not (n == "idx" and helper == "prune_non_float_tensors") and (n != "side" or fa == 2)]
                 if names != want:
                     msgs.append(f"[{vname}] surviving nodes {names}, documented behaviour keeps {want}")
                 if not any(n.op == "output" for n in res.nodes):
